@@ -1,6 +1,6 @@
 (* C01 — Deletion safety: never remove a copy without two other archive copies. *)
 From Coq Require Import List NArith Bool Arith.
-From Alp Require Import Base.Str Base.Types Model.Delete Proofs.DeleteProofs Model.Select Proofs.SelectProofs.
+From Alp Require Import Base.Str Base.Types Model.Delete Proofs.DeleteProofs Model.Select Proofs.SelectProofs Model.Dispatch Proofs.DispatchProofs.
 Import ListNotations.
 Local Open Scope nat_scope.
 
@@ -54,3 +54,16 @@ Print Assumptions C01_interleaved_refuted.
 Example C01_example : map (fun e => d_id (e_copy e)) (snd (delete_async kf_arch (fun _ => false) ex_batch ex_index)) = [1%N]
   /\ map d_has (fst (delete_async kf_arch (fun _ => false) ex_batch ex_index)) = [HN; HY; HY; HY; HY].
 Proof. exact example_delete. Qed.
+
+(* "No other daemon action deletes or overwrites a copy that the index records as healthy": two pulls of one file into one group
+   would write to one path, and the one that fails unlinks what the other has delivered.  One pass of a group's update hands out at
+   most one pull per file, whatever the requests and whatever update_pull answers; and only requests that were pending in that pass,
+   that update_pull accepted, and whose file had no pull yet. *)
+Theorem C01_one_pull_per_file_per_pass : forall seen reqs, NoDup (map r_file (snd (pass seen reqs))).
+Proof. exact pass_one_per_file. Qed.
+Print Assumptions C01_one_pull_per_file_per_pass.
+Theorem C01_dispatched_were_dispatchable : forall seen reqs r, In r (snd (pass seen reqs)) -> In r reqs /\ r_ok r = true /\ ~ In (r_file r) seen.
+Proof. exact pass_dispatched. Qed.
+Print Assumptions C01_dispatched_were_dispatchable.
+Example C01_example_pass : considered ex_reqs = [1; 2; 4]%N /\ dispatched ex_reqs = [2; 4]%N.
+Proof. exact example_pass. Qed.
